@@ -5,8 +5,9 @@ import XrsVerif.Model.ViewshedEvents
   driver).  What the public function derives from the DataArray before it calls the numba kernels:
 
     * `inRange`        the `ValueError` guard `coords.min() <= v <= coords.max()` per axis;
-    * `nearest`        `raster.sel(.., method='nearest')`: the coordinate nearest to `v` (the LATER one on an exact tie --
-                       pandas' rule on a monotonic index, ascending or descending);
+    * `nearest`        `raster.sel(.., method='nearest')`: the coordinate nearest to `v` (on an exact tie -- `v` half way
+                       between two centres -- the LARGER coordinate: what pandas' `get_indexer(method='nearest')` does on a
+                       monotonic index, ascending or descending; observed, compared on every run, not part of the property);
     * `obsIndex`       then the first index whose coordinate equals the selected one (`np.where(coords == v)[0][0]`);
     * `resOf`          the cell size `(c[-1] - c[0]) / (n - 1)` over the coordinate array -- SIGNED: negative on a
                        descending axis; the kernels only ever square it (`ViewshedEvents.key`);
@@ -26,13 +27,13 @@ def dist (a b : Rat) : Rat := if a ≤ b then b - a else a - b
 /-- `coords.min() <= v <= coords.max()` -/
 def inRange (cs : List Rat) (v : Rat) : Bool := cs.any (fun c => decide (c ≤ v)) && cs.any (fun c => decide (v ≤ c))
 
-/-- (index, coordinate) of the coordinate nearest to `v`; on an exact tie the later one -/
+/-- (index, coordinate) of the coordinate nearest to `v`; on an exact tie the larger coordinate -/
 def nearest (v : Rat) : List Rat → Option (Nat × Rat)
   | [] => none
   | c :: cs =>
     match nearest v cs with
     | none => some (0, c)
-    | some (j, b) => if dist c v < dist b v then some (0, c) else some (j + 1, b)
+    | some (j, b) => if dist c v < dist b v ∨ (dist c v = dist b v ∧ b < c) then some (0, c) else some (j + 1, b)
 
 /-- the coordinate array of an axis of a (y, x) raster -/
 def axisCoords (axis : String) (xs ys : List Rat) : Option (List Rat) :=
